@@ -57,7 +57,7 @@ CHECKS = {
         level="fault_enumeration", engine="E1+E8", ref="DESIGN.md section 4 C10",
         text="(a) constant-operand, chain and deep-live families x option sets through optimize+compare under a CPU "
              "budget of 5 s (min of 3 attempts) and 1 GiB RSS growth, no escaping exception; (b) every (seam, n-th "
-             "call, exception type) of the per-block pipeline is injected into 3-block contracts driven through the "
+             "call, exception type and payload shape: message / no argument / message+code / non-string) of the per-block pipeline is injected into 3-block contracts driven through the "
              "real optimize_asm_in_asm_format: the run must finish, write its output, and differ from the fault-free "
              "output in at most one block, which must equal its input",
         note="seams are wrapped by module-attribute rebinding in the harness process; budgets are ~1000x the normal "
@@ -91,8 +91,8 @@ CHECKS = {
         text="shipped examples, documents spliced from prefix-tree blocks (splits, terminals, pseudo pushes, stores) "
              "and grammar documents x option sets run through gasol_asm.execute_gasol; an independent reader checks "
              "metadata equality, per-block skeleton equality (every tag/JUMPDEST/jump/terminal/splitting instruction "
-             "with all fields), well-formedness of every emitted item, and that the tool re-reads its output to the "
-             "same value",
+             "with all fields, including solc's optional modifierDepth / jumpType), well-formedness of every emitted "
+             "item, and that the tool re-reads its output to the same value",
         note="trusted base: mc/docs.py + mc/asm_ref.py; hex case of PUSH constants is not constrained; streams the "
              "tool does not parse (assemblies nested two levels) must be byte-identical",
         technique="bounded-exhaustive enumeration of input documents x configurations with an independent "
@@ -184,7 +184,9 @@ CHECKS = {
              "(every symbol declared once, used at its arity and sorts, logic consistent) and ALL projections of its "
              "models onto the instruction variables are enumerated by a finite-domain search over the text; every "
              "projected model is decoded through BlockOptimizer's own reader (OMS syntax, and z3 syntax on a slice) and "
-             "executed on the symbolic stack machine within the declared bounds",
+             "executed on the symbolic stack machine within the declared bounds; for four long instances (12-13 "
+             "positions) a known realizing sequence is completed into a full model by the same search with the "
+             "instruction variables fixed, printed in three definition orders x two solver syntaxes and decoded",
         note="the enumerator (mc/smt_enum.py) explores the encoding as a transition system with unit propagation and "
              "branches on anything left undetermined; cross-validated against z3 on dumped instances by "
              "tools/z3_cross.py (28/28 agree); model and implementation are bound by construction: the enumerator "
@@ -199,7 +201,8 @@ CHECKS = {
              "enumerated from the emitted text and decoded by the tool's reader; the true optimum within the bounds "
              "comes from an explicit-state uniform-cost search over the reference stack machine with independent "
              "weights; checked: realizable => satisfiable, a minimum-penalty model has minimum true cost, penalty minus "
-             "cost is constant over models, the optimum does not depend on the pruning set",
+             "cost is constant over models, the optimum does not depend on the pruning set; instances include every "
+             "kind of store/load next to POP/SWAP and values that can be copied or recomputed",
         note="weights: bytes by libevmasm's rule, Berlin static gas (the tool's figure for access-priced opcodes), "
              "instruction count; known finding: -size prices instructions at min(bytes,5)",
         technique="exhaustive enumeration of the model set of the emitted encoding against an explicit-state "
